@@ -1,6 +1,5 @@
 package vsim
 
-
 import (
 	"fmt"
 	"strings"
@@ -43,6 +42,7 @@ type TOp struct {
 	Opts    wamp.Dict
 	Mode    string
 	D       time.Duration
+	Until   time.Duration // tSleep: sleep until this virtual time (since the run started) instead of for D
 	Args    wamp.List
 	Chunks  int
 	WaitAck bool // wait (virtual time bounded) for the reply before the next op
@@ -65,6 +65,9 @@ func (o TOp) String() string {
 	}
 	if o.D != 0 {
 		s += fmt.Sprintf("[%v]", o.D)
+	}
+	if o.Until != 0 {
+		s += fmt.Sprintf("[until %v]", o.Until)
 	}
 	if len(o.Opts) > 0 {
 		s += CanonVal(o.Opts)
@@ -99,6 +102,7 @@ type InvRec struct {
 	Seq         int
 	T           time.Duration
 	Final       bool // this callee sent a final answer
+	ByYield     bool // ... and it was a YIELD (the dealer retries a RESULT the caller cannot take yet)
 	FinalT      time.Duration
 	FinalSeq    int
 	Interrupted bool
@@ -198,6 +202,9 @@ func (t *TClient) final(iv *InvRec) {
 func (t *TClient) answer(iv *InvRec, x *wamp.Invocation) {
 	yield := func() {
 		if t.SendRec(&wamp.Yield{Request: x.Request, Options: wamp.Dict{}, Arguments: x.Arguments, ArgumentsKw: x.ArgumentsKw}) {
+			if !iv.Final {
+				iv.ByYield = true
+			}
 			t.final(iv)
 		}
 	}
@@ -366,11 +373,23 @@ func (t *TClient) Exec(c *Ctx, op TOp) bool {
 		}
 		return ok
 	case tSleep:
-		time.Sleep(op.D)
+		if op.Until > 0 {
+			if d := op.Until - t.W.S.Elapsed(); d > 0 {
+				time.Sleep(d)
+			}
+		} else {
+			time.Sleep(op.D)
+		}
 	case tLeave:
 		c.Fault("goodbye")
-		t.SendRec(&wamp.Goodbye{Reason: wamp.CloseNormal, Details: wamp.Dict{}})
-		t.Left = true
+		if t.SendRec(&wamp.Goodbye{Reason: wamp.CloseNormal, Details: wamp.Dict{}}) {
+			t.Left = true
+		} else {
+			// the router did not take the GOODBYE within the client's
+			// patience (its handler for this session is busy): like a real
+			// client, drop the connection instead
+			t.CloseTransport()
+		}
 		return false
 	case tClose:
 		c.Fault("disconnect")
